@@ -57,6 +57,8 @@ def jobs(tier, seed):
             if tier == 'quick' and n + wl > 3:
                 continue
             js.append({'name': 'stream/n%d/ws%d' % (n, wl), 'kind': 'stream', 'n': n, 'wl': wl})
+            if 1 <= n <= 2 and wl == 0:
+                js.append({'name': 'stream/n%d/ws%d/after-ba' % (n, wl), 'kind': 'stream', 'n': n, 'wl': wl, 'prior': 'ba\nb'})
     js.sort(key=lambda j: -(j.get('n', 0) + j.get('wl', 0)))
     return js
 
@@ -85,11 +87,25 @@ def harness_stream(e, prog, job, st):
     # wsconst string: symbolic letters over the documented alphabet
     letters = [WS_LETTERS[e.choose(len(WS_LETTERS))] for _ in range(job['wl'])]
     st['ws'] = ''.join(letters)
-    rf = e.run(e.prog.by_path['build_post_filters'][-1], [mk_strref(st['ws'])])
-    if rf.var != 'Ok':
-        raise Panic('build_post_filters rejected a valid wsconst string')
-    tok = P.mk_struct(prog, 'VaporettoTokenizer', predictor=Opaque('box', cell=Cell(pred), rt='Arc'), prefilter=Agg([], ty='KyteaFullwidthFilter'), postfilters=rf.f[0].v)
-    tcell = Cell(tok)
+    # the tokenizer is built by its public constructor (the harness does not depend on the struct's layout); Predictor::new inside it is memoised
+    model = P.build_model(e, prog, ms)
+    e.call_memo = {'Predictor::new': 'stream'}
+    try:
+        rt = e.run(hlib.fn(prog, 'VaporettoTokenizer', 'new'), [model, mk_strref(st['ws'])])
+    finally:
+        e.call_memo = None
+    if rt.var != 'Ok':
+        raise Panic('VaporettoTokenizer::new rejected a well-formed model / valid wsconst string')
+    tcell = Cell(rt.f[0].v)
+    if job.get('prior'):
+        # the same tokenizer object first streams another text to the end (Tantivy calls token_stream once per document)
+        ps = e.run(hlib.fn(prog, 'VaporettoTokenizer', 'token_stream', 'Tokenizer'), [Ref(tcell), mk_strref(job['prior'])])
+        pcell = Cell(ps)
+        g = 0
+        while e.truth(e.run(hlib.fn(prog, 'VaporettoTokenStream', 'advance', 'TokenStream'), [Ref(pcell)])):
+            g += 1
+            if g > len(job['prior']) + 2:
+                raise Panic('token stream yields more tokens than characters')
     # text classes: two table keys, CR, LF, and "any other value that is not a key of the normaliser table" (the table itself is covered for every
     # scalar value by the char/all-scalars job; excluding the keys here keeps the 96-arm match from forking on every character)
     ss = S.sym_string(e, 'x', job['n'], 'ab\r\n', exclude='\0' + ''.join(k for k in table_from_source() if k not in 'ab'))
@@ -232,7 +248,7 @@ def confirm_stream(sc, replay):
     text = sc['text']; ws = sc.get('wsconst', '')
     res = replay.run([{'op': 'model', 'id': 'm', 'data': sc['model']}, {'op': 'model_dump', 'model': 'm'}])
     data = res[-1].get('bytes')
-    r = replay.run_tantivy(data, ws, text)
+    r = replay.run_tantivy(data, ws, text, prior=sc.get('job', {}).get('prior'))
     if 'panic' in r or 'crash' in r:
         return True, {'native_violations': ['token stream panicked: %s' % (r.get('panic') or r.get('stderr'))]}
     if 'tokens' not in r:
